@@ -42,6 +42,9 @@ LOCAL = {
     "lens-mie-uneq": (("sphere", 1.59, 0.5, (0.17, 0.11, 5.0)),
                       ("Lens", (0.8, ("Mie", (False, False), {}), 56, 72),
                        {})),
+    # theory chosen automatically for a compact dimer
+    "auto-dimer": (("spheres", [(1.59, 0.5, (0.3, 0.1, 5.0)),
+                                (1.59, 0.5, (1.35, 0.2, 5.2))]), "auto"),
     "mielens-below": (("sphere", 1.59, 0.5, (0.17, 0.11, -5.0)),
                       ("MieLens", (0.8,), {})),
     "lens-mie-below": (("sphere", 1.59, 0.5, (0.17, 0.11, -5.0)),
@@ -49,17 +52,19 @@ LOCAL = {
                         {})),
 }
 H.ST.update(LOCAL)
-STS = {"quick": ["mie", "mie2", "ms3t", "ms3a", "tm-spheroid", "mielens",
+STS = {"quick": ["mie", "mie2", "ms3t", "ms3a", "auto-dimer", "tm-spheroid", "mielens",
                  "mielens-below", "lens-mie", "lens-mie-uneq", "abmielens",
                  "layered"],
        "thorough": ["mie", "mie-far", "layered", "mie2", "ms3t", "ms3a",
+                    "auto-dimer",
                     "tm-spheroid", "tm-cylinder", "tm-sphere", "mielens",
                     "mielens-below", "lens-mie", "lens-mie-uneq",
                     "lens-mie-below",
                     "abmielens", "mielens2"]}
 PX = 0.1
 SHIFTS = [(1 * PX, 0.0), (0.0, -3 * PX), (2.5 * PX, 1.25 * PX),
-          (math.pi / 10, -math.e / 7), (1e3, 1e3), (0.0, 0.0)]
+          (math.pi / 10, -math.e / 7), (1e3, 1e3), (0.0, 0.0),
+          (2500.0, 0.0), (-77.7, 4000.0)]
 ROT = {"quick": [17.0, 30.0, 90.0, 123.0, -60.0],
        "thorough": [17.0, 0.0, 30.0, 45.0, 90.0, 123.0, 180.0, 270.0, -60.0]}
 POLANG = [0.0, 30.0, 90.0, 135.0]
@@ -83,7 +88,7 @@ def cases(tier, seed):
 
 
 def _is_ms(st):
-    return st.startswith("ms")
+    return st.startswith("ms") or st == "auto-dimer"
 
 
 def _holo_field(det, scat, theory, pol):
@@ -118,7 +123,15 @@ def _run_shift(case, ck):
         s1 = H.mk_scatterer(sspec, shift=(d[0], d[1], 0.0))
         th = H.mk_theory(tspec)
         h0, f0 = _holo_field(det0, s0, th, pol)
-        h1, f1 = _holo_field(det1, s1, H.mk_theory(tspec), pol)
+        try:
+            h1, f1 = _holo_field(det1, s1, H.mk_theory(tspec), pol)
+        except Exception as e:
+            # accepted at one place, refused at another: the calculation
+            # depends on where the configuration sits in the lab frame
+            ck.true("shift-acceptance", False, "%s on %s: accepted before "
+                    "but refused after a common shift by %r (%s: %s)" %
+                    (st, dk, d, type(e).__name__, str(e)[:120]))
+            continue
         ck.trans += 4
         e = float(np.abs(h1 - h0).max() / np.abs(h0).max())
         ck.metric("shift" + ("-1e3" if big else ""), e)
